@@ -61,6 +61,7 @@ type PathResult struct {
 	UnknownBr int
 	Funcs     map[string]bool
 	Allocs    []string
+	Truncs    []string
 	Events    []Event
 }
 
@@ -267,11 +268,15 @@ func (e *Exec) Conc(v sym.Sc) uint64 {
 			e.S.Pop()
 			e.abort("unknown", "no model value for %s", name)
 		}
-		vals = append(vals, x)
-		if len(vals) > capN {
-			e.S.Pop()
-			e.abort("conccap", "more than %d feasible values for %s at %s", capN, clip(v.T), e.where())
+		if len(vals) >= capN {
+			// more feasible values than the cap: the path goes on with the values
+			// found so far (a stated under-approximation: the run is reported as
+			// inconclusive for the rest, but what lies behind this point — e.g. a
+			// crash — is still explored and, if found, replayed)
+			e.res.Truncs = append(e.res.Truncs, fmt.Sprintf("conccap: more than %d feasible values for %s at %s (first %d explored)", capN, clip(v.T), e.where(), capN))
+			break
 		}
+		vals = append(vals, x)
 		e.S.Emit(fmt.Sprintf("(assert (not (= %s %s)))", name, sym.Const(v.W, x).Term()))
 	}
 	e.S.Pop()
@@ -384,6 +389,17 @@ func (e *Exec) mkVector(m map[string]uint64, kind, label string) *Vector {
 // finding, a violation inside carve is reported as known; outside it, as a
 // violation.
 func (e *Exec) Assert(label string, c sym.Sc, kf string, carve sym.Sc) {
+	if only := e.M.Cfg.OnlyLabels; len(only) > 0 {
+		hit := false
+		for _, s := range only {
+			if strings.Contains(label, s) {
+				hit = true
+			}
+		}
+		if !hit {
+			return
+		}
+	}
 	if e.replaying() {
 		// already checked by the ancestor path that scheduled this fork
 		// (same path condition at this point); continue under c as it did.
